@@ -136,6 +136,7 @@ func genHSearch(r *core.Rand, tier string) *hsCase {
 	}
 	ndocs := r.Range(1, maxDocs)
 	var live []uint32
+	var vpool [][]float32 // vectors added so far
 	next := uint32(3_100_000_000)
 	search := func() hsCmd {
 		cmd := hsCmd{Op: "search", K: r.Range(1, len(live)+2)}
@@ -145,6 +146,11 @@ func genHSearch(r *core.Rand, tier string) *hsCase {
 				q[j] = float32(r.Range(-4, 4)) + float32(r.Norm())*0.3
 			}
 			q[0] += 0.5
+			if len(vpool) > 0 && r.Chance(0.25) {
+				// exactly a stored vector: a distance of exactly 0 (the zero value of a missing
+				// map entry) must not be mistaken for "no vector match"
+				q = append([]float32(nil), vpool[r.Intn(len(vpool))]...)
+			}
 			cmd.QV = core.Bits(q)
 		}
 		if r.Chance(0.6) {
@@ -164,6 +170,10 @@ func genHSearch(r *core.Rand, tier string) *hsCase {
 					w += " " + hsVocab[r.Intn(len(hsVocab))]
 				}
 				cmd.QT = append(cmd.QT, w)
+			}
+			if r.Chance(0.15) {
+				// the same query string twice: two queries, both count in the aggregation
+				cmd.QT = append(cmd.QT, cmd.QT[r.Intn(len(cmd.QT))])
 			}
 		}
 		mkf := func() hsFilter {
@@ -228,6 +238,7 @@ func genHSearch(r *core.Rand, tier string) *hsCase {
 					v[0] = 1
 				}
 				cmd.Vec = core.Bits(v)
+				vpool = append(vpool, v)
 			}
 			if r.Chance(0.85) {
 				var ws []string
